@@ -109,6 +109,17 @@ CHECKS = {
         "quick": {"rapid_checks": 4000, "timeout": 900},
         "thorough": {"rapid_checks": 60000, "timeout": 3400, "shards": 16},
     },
+    "C10": {
+        "pkg": "./checks/c10",
+        "level": "fault_enumeration",
+        "assumptions": [
+            "components are tgen programs (generated code incl. nested calls, child blocks, the component parameter); templ.Join / templ.Flush wrappers are covered by C13's call trees, not here",
+            "for an expression fault the received bytes are compared with the document of the same arguments without the fault (the failing call is the only difference)",
+            "the templ.Error line must lie inside some (string,error) expression of the file (if several such expressions exist the check does not tell them apart)",
+        ],
+        "quick": {"rapid_checks": 4, "timeout": 900},
+        "thorough": {"rapid_checks": 25, "timeout": 3400, "shards": 12},
+    },
     "C11": {
         "pkg": "./checks/c11",
         "level": "fault_enumeration",
